@@ -1,7 +1,7 @@
 (* arch_driver.ml — runs the extracted archive-layer model (coq/ArchModel.v via ArchCodec.v) on the
    line protocol of harness/drv_arch.cpp.
 
-     popload  <arch> <type#> <mode> <pol> <prior> <doc>     -> OK <value> | EXC:<code> | UB:uninit
+     popload  <arch> <type#> <mode> <pol> <prior> <doc>     -> OK <value> | EXC:<code>
      validate <arch> <class#> <max> <pol> <doc>             -> OK <value> | VAL <path>:<msg>,..;.. <state|-> | EXC:<code>
 
    arch: json | mp | csv     mode: - | c | o | u     pol: two letters (mismatch, overflow), S = Skip, T = ThrowError
@@ -116,7 +116,6 @@ let exc_name = function
   | EOverflow -> "EXC:Overflow"
   | EMismatch -> "EXC:MismatchedTypes"
   | EValidation _ -> "EXC:FailedValidation"
-  | EUninit -> "UB:uninit"
 
 let arch_of = function
   | "json" -> { null_scope_is_mismatch = true; null_str = NullStrMismatch; first_index = nat_of_int 1 }
